@@ -365,6 +365,34 @@ pub fn gen_pipeline(seed: u64, allowed: &[Config], restrict: &Restrict) -> Plan 
     p
 }
 
+/// A pipeline run whose only destructive fault is a write error at a random byte (W-ERR / S-ERR),
+/// on top of benign chunking, for the arms whose writer seam can fail.
+pub fn gen_write_err(seed: u64, restrict: &Restrict) -> Plan {
+    let mut s = seed;
+    loop {
+        let mut p = gen_pipeline(s, &[Config::Benign], restrict);
+        let arm = arms::arm_by_name(&p.codec).unwrap();
+        if (arm.writer_fallible)(&p) {
+            let mut rng = Rng::new(seed ^ 0x57E1_1E44);
+            p.config = Config::Destructive;
+            p.seed = seed;
+            let framing = (arm.framing)(&p);
+            let ops: Vec<Vec<Num>> = match framing {
+                Framing::Container => vec![p.records.clone()],
+                _ => p.records.iter().map(|v| vec![v.clone()]).collect(),
+            };
+            let total: usize = ops.iter().map(|o| (arm.ref_enc)(&p, o).len()).sum::<usize>().max(1);
+            p.write.err_at = Some(if arm.name == "serde-sim" { 0 } else { rng.below(total) });
+            return p;
+        }
+        if restrict.codec.is_some() {
+            // the requested arm has no fallible writer: fall back to a benign run
+            return p;
+        }
+        s = s.wrapping_mul(6364136223846793005).wrapping_add(1442695040888963407);
+    }
+}
+
 // ===================================================================== text arm
 
 const NASTY: &[&str] = &["g", "z", "G", "Z", "_", "-", "+", " ", "é", "€", "𝟘", "\0", "x", "X", "o", "b", "/", ",", "=", "\n", "f", "F", "9", "0"];
